@@ -1240,7 +1240,18 @@ where
     // trailer delivery should omit Content-Length; the branch below then
     // upgrades the framing to chunked and H2BlockConverter on the back side
     // passes the trailer block through intact.
-    if !end_stream && kawa.body_size == BodySize::Empty {
+    //
+    // An interim response (1xx on a header block without END_STREAM, RFC 9113
+    // §8.1) has no body at all: the next HEADERS frame of the stream opens the
+    // final response. It is a complete message of its own that does not end
+    // the stream: what the H1 reader makes of `100 Continue` / `103`.
+    let interim = !end_stream
+        && matches!(kawa.kind, Kind::Response)
+        && matches!(
+            kawa.detached.status_line,
+            StatusLine::Response { code, .. } if (100..200).contains(&code)
+        );
+    if !end_stream && !interim && kawa.body_size == BodySize::Empty {
         kawa.body_size = BodySize::Chunked;
         kawa.push_block(Block::Header(Pair {
             key: Store::Static(b"Transfer-Encoding"),
@@ -1264,7 +1275,7 @@ where
     // `BodySize::Empty` upgrade-to-chunked branch guarantees we never enter the
     // phase mapping with an unframed body when more bytes are coming.
     debug_assert!(
-        end_stream || kawa.body_size != BodySize::Empty,
+        end_stream || interim || kawa.body_size != BodySize::Empty,
         "a continuing stream must have a resolved body framing before phasing"
     );
     // The message ends exactly where the peer said so: with this header block
@@ -1281,7 +1292,8 @@ where
     //   (304), was left in Chunks / Body: the HTTP/1.1 frontend waits for a
     //   terminated response before it reads its client again, so a keep-alive
     //   connection was never read again.
-    kawa.parsing_phase = if end_stream {
+    // An interim response is terminated as a message although the stream goes on.
+    kawa.parsing_phase = if end_stream || interim {
         ParsingPhase::Terminated
     } else {
         match kawa.body_size {
@@ -1294,6 +1306,7 @@ where
     // length-framed body that is still to come lands in Body, never mid-chunk.
     debug_assert!(
         end_stream
+            || interim
             || !matches!(kawa.body_size, BodySize::Length(_))
             || kawa.parsing_phase == ParsingPhase::Body,
         "a Content-Length body that is still to come must transition to ParsingPhase::Body"
